@@ -1,7 +1,7 @@
 From Coq Require Import List Arith Bool String.
 From Wire Require Import Sets Acyclic Solve Names Front Exec Model Emit Cli CopyAst ModelThms NamesThms Bridge ProcessWF Perm PermModel EmitThms Regroup RegroupModel SolveBound SolveBoundModel.
 From Wire Require Show ShowBound FrontRules InjBody.
-From Wire Require Layout Once OnceModel ExecThms Rename Imports.
+From Wire Require Paths Layout Once OnceModel ExecThms Rename Imports.
 Import ListNotations.
 
 (* The property theorems.  This file contains nothing but statements closed by [exact lemma] and the
@@ -466,6 +466,14 @@ Theorem C13_whitelist_complete : forall e, effect_free e -> value_ok e = true.
 Proof. exact value_ok_complete. Qed.
 Print Assumptions C13_whitelist_complete.
 
+(* identifiers the injector's package cannot access, internal packages: importableFrom is the go command's rule *)
+Theorem C13_internal_package_rule : forall p from,
+  Paths.importable p from = true <->
+  ~ In "internal"%string p \/
+  exists a b r, p = a ++ "internal"%string :: b /\ ~ In "internal"%string b /\ a <> [] /\ from = a ++ r.
+Proof. exact Paths.importable_spec. Qed.
+Print Assumptions C13_internal_package_rule.
+
 (* ------------------------------------------------------------------ C15 *)
 (* a copy driven by a table that covers every child field of every node kind is the identity, on every tree
    (the table of the real copyAST is regenerated by reflection on every run and shown complete by the table
@@ -527,6 +535,19 @@ Theorem C16_import_block_order_independent : forall visited visited' : list Impo
   Imports.import_block visited = Imports.import_block visited'.
 Proof. exact Imports.import_block_order_independent. Qed.
 Print Assumptions C16_import_block_order_independent.
+
+(* vendored import paths are written in their canonical form: what qualifyImport files a path under is the path after
+   its last vendor directory -- a suffix without any vendor directory left; stripping is idempotent *)
+Theorem C16_vendor_prefix_stripped : forall a s,
+  s <> [] -> ~ Paths.has_vendor_dir s -> Paths.unvendor (a ++ "vendor"%string :: s) = s.
+Proof. exact Paths.unvendor_vendored. Qed.
+Print Assumptions C16_vendor_prefix_stripped.
+
+Theorem C16_unvendored_path_is_clean : forall p,
+  ~ Paths.has_vendor_dir (Paths.unvendor p) /\ (exists a, p = a ++ Paths.unvendor p) /\
+  Paths.unvendor (Paths.unvendor p) = Paths.unvendor p.
+Proof. intro p. split; [apply Paths.unvendor_clean|split; [apply Paths.unvendor_suffix|apply Paths.unvendor_idem]]. Qed.
+Print Assumptions C16_unvendored_path_is_clean.
 
 (* ------------------------------------------------------------------ C02 / C06 on the concrete planner *)
 (* Hypotheses: wfb pm args = true is the boolean well-formedness certificate that the correspondence run
